@@ -95,6 +95,7 @@ class Ctx:
         self.check_defined = False
         self.uf_memo = {}
         self.inputs = {}             # name -> value : symbolic inputs of the run (for counterexample extraction)
+        self.input_ranges = {}       # name -> (Min, Max) of declared input parameters (used to pick sensible models)
         self.dropped_calls = 0
         self.stats = {"stmts": 0, "forks": 0, "merges": 0, "loops_summarised": 0, "loops_invariant": 0,
                       "loops_unrolled": 0, "calls_by_contract": 0, "calls_inlined": 0}
@@ -255,6 +256,8 @@ class Executor:
             return self.wrap(real, path)
         if isinstance(real, bool):
             v = z3.Bool(path)
+        elif isinstance(real, int) and type(owner).__name__ == "OutputParameter":
+            v = z3.Real(path)      # computed outputs are numbers; the constructor's literal 0 is only a placeholder
         elif isinstance(real, int):
             v = z3.Int(path)
         elif isinstance(real, float):
@@ -268,6 +271,9 @@ class Executor:
         else:
             return self.wrap(real, path)
         self.ctx.inputs[path] = v
+        if attr == "value" and isinstance(getattr(owner, "Min", None), (int, float)) \
+                and isinstance(getattr(owner, "Max", None), (int, float)):
+            self.ctx.input_ranges[path] = (float(owner.Min), float(owner.Max))
         return v
 
     def read_attr(self, st: State, ref: Ref, attr: str, node=None):
@@ -503,7 +509,8 @@ class Executor:
                 self.ctx.add_obligation(st, "bounds", clause, inb, meta={"line": getattr(node, "lineno", None)})
                 st.assume(inb)
             nonneg = self.cmp(">=", idx_t, 0)
-            if nonneg is True:
+            if nonneg is True or self.ctx.spec_mode > 0:
+                # clauses index inside the range by construction (no negative wrap-around in specifications)
                 return sq.get(idx_t)
             if nonneg is False:
                 return sq.get(self.arith("+", idx_t, n))
